@@ -74,9 +74,10 @@ def run_permute(k):
     C = registered(k)
     rec = k.env.rec
     ins = [k.S("s%d" % i) for i in range(C["t"])]
-    n0 = len(rec.constraints)
+    counted = hasattr(rec, "constraints")          # the constraint-less "nobackend" has nothing to count
+    n0 = len(rec.constraints) if counted else 0
     out = ph.permute(list(ins))
-    ncons = len(rec.constraints) - n0
+    ncons = (len(rec.constraints) - n0) if counted else (C["R_F"] * C["t"] + C["R_P"]) * (C["a"] - 1)
     ref = ref_permute([k.v("s%d" % i) for i in range(C["t"])], C, P)
     obs = [("parameters in use are the ones registered for the selected backend",
             (ph.R_F, ph.R_P, ph.t, ph.a) == (C["R_F"], C["R_P"], C["t"], C["a"]) and ph.round_constants is C["round_constants"]
@@ -218,6 +219,18 @@ def run_ggh(k, nbits):
             ("plain subset-sum hash equals the reference", plain == plain_ref)]
 
 
+def ggh_output(k, nbits):
+    import importlib
+    gh = importlib.import_module("pysnark.ggh_hash")
+    from symtrace import env as ENV
+    ENV.track_modules(k.env, [gh])
+    if k.env.symbolic and not getattr(gh, "_verif_injected", False):
+        from symtrace import engine as E
+        E.inject(gh)
+        gh._verif_injected = True
+    return [gh.ggh_hash([k.B("b%d" % i).lc for i in range(nbits)])]
+
+
 def build(n=4, tier="quick", backend="zkinterface"):
     ents = []
     t = 5
@@ -235,6 +248,9 @@ def build(n=4, tier="quick", backend="zkinterface"):
                 continue
             ents.append(Entry("pad_%d_%d" % (L1, L2), (lambda k, L1=L1, L2=L2: run_padding(k, L1, L2)),
                               tuple("a%d" % i for i in range(L1)) + tuple("b%d" % i for i in range(L2)), tags={"c20", "obs", "pad"}))
+    ents.append(Entry("ggh_out_4", (lambda k: ggh_output(k, 4)), tuple("b%d" % i for i in range(4)),
+                      assume=(lambda k: [((k.v("b%d" % i) == 0) | (k.v("b%d" % i) == 1)) for i in range(4)]),
+                      tags={"c20", "wires", "ggh", "trace"}))
     for nb in ((4,) if tier == "quick" else (4, 16)):
         ents.append(Entry("ggh_%d" % nb, (lambda k, nb=nb: run_ggh(k, nb)), tuple("b%d" % i for i in range(nb)),
                           assume=(lambda k, nb=nb: [((k.v("b%d" % i) == 0) | (k.v("b%d" % i) == 1)) for i in range(nb)]),
